@@ -125,7 +125,31 @@ func (g *eiGen) plain(m *eiGMsg, from, to int, mux string, maxSize int) {
 		}
 		n := g.sizeFor(room)
 		s := &eiGSig{name: g.sigName("s"), mux: mux, lin: pos, size: n}
+		// signal names are unique per MESSAGE only: now and then a signal takes the name (often
+		// also the width) of a signal of an earlier message, with a value table of its own
+		twin := false
+		if len(g.msgs) > 0 && g.r.Intn(5) == 0 {
+			om := g.msgs[g.r.Intn(len(g.msgs))]
+			if len(om.sigs) > 0 {
+				o := om.sigs[g.r.Intn(len(om.sigs))]
+				taken := false
+				for _, x := range m.sigs {
+					taken = taken || x.name == o.name
+				}
+				if !taken {
+					s.name = o.name
+					twin = true
+					if o.size <= room && g.r.Intn(3) != 0 {
+						n, s.size = o.size, o.size
+					}
+				}
+			}
+		}
 		g.decorate(s)
+		if twin && g.r.Intn(2) == 0 {
+			// an own table whose values need fewer bits than the signal has
+			s.vals, _ = g.valDescs(min(1<<min(s.size, 3)-1, 5), "q")
+		}
 		m.sigs = append(m.sigs, s)
 		pos += n
 	}
